@@ -36,6 +36,8 @@ func main() {
 			usage()
 		}
 		os.Exit(replayMain(os.Args[2]))
+	case "selftest":
+		os.Exit(selftestMain(os.Args[2:]))
 	case "race":
 		os.Exit(raceMain(os.Args[2:]))
 	case "minimise":
